@@ -2,6 +2,7 @@ package main
 
 import (
 	"context"
+	"encoding/json"
 	"fmt"
 	"io"
 	"log/slog"
@@ -64,10 +65,117 @@ func driveLogMw(r *result, seed uint64, budget time.Duration) {
 	deadline := time.Now().Add(budget)
 	round := 0
 	for time.Now().Before(deadline) {
-		logMwRound(r, rand.New(rand.NewPCG(seed+uint64(round), 11)), round)
+		if round%3 == 2 {
+			logMwRoundJH(r, rand.New(rand.NewPCG(seed+uint64(round), 13)), round)
+		} else {
+			logMwRound(r, rand.New(rand.NewPCG(seed+uint64(round), 11)), round)
+		}
 		round++
 	}
 	r.count("rounds", round)
+}
+
+// logMwRoundJH: concurrent requests through a LogMiddleware whose logger is a real JSONHybrid logger
+// (with a With history) over a writer that takes each line in 7-byte pieces.  Every line must be one
+// intact JSON object whose message carries the four attributes of ONE request, and every request has
+// exactly its started / inner / finished lines.
+func logMwRoundJH(r *result, rnd *rand.Rand, round int) {
+	w := &slowWriter{}
+	l := slog.New(slogutil.NewJSONHybridHandler(w, nil)).With("svc", "x", "a", 1, "b", 2, "c", 3, "d", 4).With("e", 5)
+	mw := httputil.NewLogMiddleware(l, slog.LevelInfo)
+	inner := http.HandlerFunc(func(rw http.ResponseWriter, req *http.Request) {
+		if cl, ok := slogutil.LoggerFromContext(req.Context()); ok {
+			cl.Info("inner")
+		}
+		runtime.Gosched()
+		_, _ = rw.Write([]byte("ok"))
+	})
+	h := httputil.Wrap(inner, mw)
+	goroutines := 2 + rnd.IntN(15)
+	per := 6
+	var wg sync.WaitGroup
+	var start sync.WaitGroup
+	start.Add(1)
+	for gi := 0; gi < goroutines; gi++ {
+		wg.Add(1)
+		go func() {
+			defer wg.Done()
+			start.Wait()
+			for j := 0; j < per; j++ {
+				id := fmt.Sprint(round*100000 + gi*100 + j)
+				req := httptest.NewRequest("M"+id, "http://h"+id+".example/r/"+id, nil)
+				req.RemoteAddr = "10.1.1.1:" + id
+				req.RequestURI = "/r/" + id
+				h.ServeHTTP(httptest.NewRecorder(), req)
+			}
+		}()
+	}
+	start.Done()
+	wg.Wait()
+	w.mu.Lock()
+	out := string(w.buf)
+	w.mu.Unlock()
+	seen := map[string]int{}
+	for _, line := range strings.Split(strings.TrimSuffix(out, "\n"), "\n") {
+		var v struct {
+			Severity string `json:"severity"`
+			Message  string `json:"message"`
+		}
+		if err := json.Unmarshal([]byte(line), &v); err != nil {
+			r.violate("LogMiddleware over JSONHybrid: a line is not one JSON object (lines of concurrent requests ran into each other): %q", line)
+
+			continue
+		}
+		var id, kind string
+		okLine := true
+		for i, f := range strings.Fields(v.Message) {
+			kv := strings.SplitN(f, "=", 2)
+			if len(kv) != 2 {
+				continue
+			}
+			var got string
+			switch kv[0] {
+			case "msg":
+				kind = kv[1]
+
+				continue
+			case "host":
+				got = strings.TrimSuffix(strings.TrimPrefix(kv[1], "h"), ".example")
+			case "method":
+				got = strings.TrimPrefix(kv[1], "M")
+			case "raddr":
+				got = strings.TrimPrefix(kv[1], "10.1.1.1:")
+			case "request_uri":
+				got = strings.TrimPrefix(kv[1], "/r/")
+			default:
+				_ = i
+
+				continue
+			}
+			if id == "" {
+				id = got
+			} else if got != id {
+				okLine = false
+			}
+		}
+		if !okLine || id == "" {
+			r.violate("LogMiddleware over JSONHybrid: a record mixes the attributes of several requests: %q", v.Message)
+
+			continue
+		}
+		seen[kind+" "+id]++
+	}
+	for gi := 0; gi < goroutines; gi++ {
+		for j := 0; j < per; j++ {
+			id := fmt.Sprint(round*100000 + gi*100 + j)
+			for _, kind := range []string{"started", "inner", "finished"} {
+				if seen[kind+" "+id] != 1 {
+					r.violate("LogMiddleware over JSONHybrid: request %s has %d %q lines, want 1", id, seen[kind+" "+id], kind)
+				}
+			}
+		}
+	}
+	r.count("jh-requests", goroutines*per)
 }
 
 func logMwRound(r *result, rnd *rand.Rand, round int) {
